@@ -55,6 +55,27 @@ fn world_enr(i: usize, sk: &[u8; 32], seq: u64) -> Enr {
     b.build(&k).unwrap()
 }
 
+/// A record of world node `i` that has no socket an IPv4 node can use: 0: only an IPv6 UDP socket; 1: an IPv4
+/// address with a TCP port only; 2: no address at all.
+fn odd_enr(i: usize, sk: &[u8; 32], seq: u64, shape: u64) -> Enr {
+    let mut tmp = *sk;
+    let k = CombinedKey::secp256k1_from_bytes(&mut tmp).unwrap();
+    let mut b = Enr::builder();
+    match shape {
+        0 => {
+            b.ip6(std::net::Ipv6Addr::new(0x2001, 0xdb8, 0, 0, 0, 0, 3, i as u16 + 1));
+            b.udp6(9000 + i as u16);
+        }
+        1 => {
+            b.ip4(Ipv4Addr::new(10, 3, (i / 250) as u8, (i % 250) as u8 + 1));
+            b.tcp4(30303);
+        }
+        _ => {}
+    }
+    b.seq(seq);
+    b.build(&k).unwrap()
+}
+
 fn make_world(n: usize) -> Vec<Node> {
     // fixed identities (independent of --seed), cheap to build
     let mut rng = Rng::new(0x51c9_0c09_0c10);
@@ -164,6 +185,8 @@ impl Script {
 
 async fn run_case(seed: u64, idx: u64, world: &[Node], thorough: bool, script: Script) -> Outcome {
     let mut rng = crate::kb::case_rng(seed ^ 0x73766371, idx);
+    // the choices added later draw from a stream of their own (the older choices of a case stay what they were)
+    let mut rng2 = crate::kb::case_rng(seed ^ 0x7376_6371_3272, idx);
     let mut fails: Vec<(String, String)> = vec![];
     let par = rng.range(1, 4) as usize;
     let predicate = rng.chance(1, 3);
@@ -199,6 +222,7 @@ async fn run_case(seed: u64, idx: u64, world: &[Node], thorough: bool, script: S
         }
     };
     settle().await;
+    let mut tags: Vec<String> = vec![];
     // seed the routing table
     let nseed = *rng.pick(&[0usize, 1, 3, 8, 20, 40]);
     let mut table: Vec<usize> = vec![];
@@ -208,6 +232,34 @@ async fn run_case(seed: u64, idx: u64, world: &[Node], thorough: bool, script: S
             table.push(i);
         }
     }
+    // in one case out of six the table also holds one or two entries whose record has no socket this node can
+    // use in its IP mode (an IPv6-only record, a record without UDP port): the routing table itself does not
+    // look at addresses (they are put there through the table handle `Discv5` shares with the service); such a
+    // candidate can never be sent a request, and the lookup must go on without it
+    let mut odd: Vec<usize> = vec![];
+    if rng2.chance(1, 6) {
+        let n = rng2.range(1, 2) as usize;
+        while odd.len() < n {
+            let j = rng2.below(world.len() as u64) as usize;
+            if table.contains(&j) || odd.contains(&j) {
+                continue;
+            }
+            let shape = rng2.below(3);
+            let enr = odd_enr(j, &world[j].sk, world[j].enr.seq(), shape);
+            let key = discv5::Key::from(enr.node_id());
+            let _ = svc.kbuckets.write().insert_or_update(&key, enr, crate::service::status(rng2.chance(1, 2), rng2.chance(1, 2)));
+            odd.push(j);
+        }
+        script.push(format!("{} table entries whose record has no socket usable in the local IP mode", odd.len()));
+        tags.push("lookup:table_entry_without_usable_socket".into());
+    }
+    // answers of 17..26 records (three or four packets) in a quarter of the cases; in a fifth of the cases only the
+    // first one to three requests are answered (with such an answer), every other request fails: the lookup ends
+    // by exhaustion with a handful of results
+    let big_answers = rng2.chance(1, 4);
+    let few_answers = !timeout_case && rng2.chance(1, 5);
+    let mut few_left = rng2.range(1, 3);
+    let max_responses = constants().1;
     script.push(format!("parallelism {}, {} table entries, predicate lookup: {}", par, table.len(), predicate));
     // the lookup
     let mut target = [0u8; 32];
@@ -219,7 +271,6 @@ async fn run_case(seed: u64, idx: u64, world: &[Node], thorough: bool, script: S
     let mut lookups: Vec<Lookup> = vec![Lookup { label: "the lookup".into(), target, predicate, k, start_step: 0, started: false, done: Arc::new(Mutex::new(vec![])) }];
     // further lookups next to it: issued together with it or while it is in flight; the requested number
     // of results of a predicate lookup is the application's to choose ("no limit" = usize::MAX included)
-    let mut tags: Vec<String> = vec![];
     if rng.chance(1, 3) {
         let n = rng.range(1, 3);
         for c in 0..n {
@@ -254,6 +305,13 @@ async fn run_case(seed: u64, idx: u64, world: &[Node], thorough: bool, script: S
     let mut ever_many = false;
     let mut now = 0u64;
     let style = if timeout_case { 4 } else { rng.below(4) }; // 0: mostly answers, 1: mixed, 2: mostly failures, 3: mostly silence, 4: silence only
+    let style = if few_answers { 5 } else { style }; // 5: the first few requests are answered, the others fail
+    if few_answers {
+        script.push(format!("only the first {} requests are answered (17 to 26 records each), every other request fails", few_left));
+        tags.push("lookup:few_big_answers_then_failures".into());
+    } else if big_answers {
+        tags.push("lookup:answers_of_more_than_16_records".into());
+    }
     let mut pending_msgs: Vec<HandlerIn> = vec![];
     let mut steps = 0;
     let max_steps = if thorough { 4000 } else { 1500 };
@@ -274,6 +332,27 @@ async fn run_case(seed: u64, idx: u64, world: &[Node], thorough: bool, script: S
         settle().await;
         let mut msgs = std::mem::take(&mut pending_msgs);
         msgs.extend(svc.drain());
+        // C09 at the moment the requests are handed over: they are in flight together with every earlier request that
+        // has been neither answered nor failed (nor is older than the peer timeout)
+        {
+            let batch = msgs.iter().filter(|m| matches!(m, HandlerIn::Request(_, r) if matches!(r.body, RequestBody::FindNode { .. }))).count();
+            let open = in_flight.values().filter(|(_, t)| now < t + peer_timeout).count() + batch;
+            let bound = lookups.iter().filter(|l| l.started).fold(0usize, |a, l| a.saturating_add(par.max(l.k)));
+            if batch > 0 && open > bound {
+                fails.push(("C09".into(), if single { format!("{} requests in flight, parallelism {} and {} results requested", open, par, k) } else { format!("{} requests in flight, more than the lookups in flight allow together (parallelism {})", open, par) }));
+            }
+            // a lookup stalls only after `parallelism` consecutive answers that brought it no closer: with fewer answers
+            // than that (failures and silence are no answers) it is not stalled, whatever number of results it wants
+            if batch > 0 && single && answered.len() < par && open > par {
+                fails.push((
+                    "C09".into(),
+                    format!("{} requests in flight with parallelism {} although the lookup cannot have stalled: only {} of its requests have been answered so far (failed and unanswered requests do not stall a lookup)", open, par, answered.len())
+                        .chars()
+                        .map(|c| if c.is_ascii_digit() { '#' } else { c })
+                        .collect(),
+                ));
+            }
+        }
         for m in msgs {
             if let HandlerIn::Request(contact, req) = m {
                 let pid = contact.node_id().raw();
@@ -298,6 +377,14 @@ async fn run_case(seed: u64, idx: u64, world: &[Node], thorough: bool, script: S
                             1 => rng.weighted(&[4, 3, 3]),
                             2 => rng.weighted(&[2, 7, 1]),
                             3 => rng.weighted(&[2, 1, 7]),
+                            5 => {
+                                if few_left > 0 {
+                                    few_left -= 1;
+                                    0
+                                } else {
+                                    1
+                                }
+                            }
                             _ => 2,
                         };
                         let na = NodeAddress { socket_addr: contact.socket_addr(), node_id: contact.node_id() };
@@ -305,12 +392,17 @@ async fn run_case(seed: u64, idx: u64, world: &[Node], thorough: bool, script: S
                             0 => {
                                 // NODES: records at the requested distances from the responder (own record for 0)
                                 let mut recs: Vec<Enr> = vec![];
-                                let want = rng.below(5) as usize;
+                                let mut who: Vec<usize> = vec![];
+                                let big = style == 5 || (big_answers && rng2.chance(1, 3));
+                                let want = if big { rng2.range(17, 26) as usize } else { rng.below(5) as usize };
                                 let mut tries = 0;
-                                while recs.len() < want && tries < 200 {
+                                while recs.len() < want && tries < if big { 600 } else { 200 } {
                                     tries += 1;
                                     // half of the time look among the routing-table entries first
                                     let j = if !table.is_empty() && tries < 60 && rng.chance(1, 2) { *rng.pick(&table) } else { rng.below(world.len() as u64) as usize };
+                                    if odd.contains(&j) {
+                                        continue;
+                                    }
                                     let d = log2d(&world[j].id, &pid);
                                     if distances.contains(&d) && !recs.iter().any(|r| r.node_id().raw() == world[j].id) {
                                         // now and then the responder knows a newer version of a routing-table entry's
@@ -327,19 +419,49 @@ async fn run_case(seed: u64, idx: u64, world: &[Node], thorough: bool, script: S
                                         } else {
                                             recs.push(world[j].enr.clone());
                                         }
-                                        if j != pi {
-                                            reported.insert(j);
+                                        who.push(j);
+                                    }
+                                }
+                                // the packets: one, two halves, or (long answers) packets of at most eight records
+                                let packets: Vec<Vec<Enr>> = if recs.len() > 16 {
+                                    recs.chunks(8).map(|c| c.to_vec()).collect()
+                                } else if recs.len() >= 2 && rng.chance(1, 3) {
+                                    let second = recs.split_off(recs.len() / 2);
+                                    vec![recs.clone(), second]
+                                } else {
+                                    vec![recs.clone()]
+                                };
+                                let total = packets.len() as u64;
+                                // what the service collects of them (its documented rule): packets are gathered while fewer
+                                // than max_nodes_response records have been received and fewer than `total` (and than the
+                                // packet limit) packets; the packet after that completes the answer, later ones are ignored
+                                let mut taken = 0usize;
+                                {
+                                    let (mut count, mut received) = (1usize, 0usize);
+                                    for p in &packets {
+                                        taken += p.len();
+                                        if total > 1 && received < max_nodes_response && (count as u64) < total && count < max_responses {
+                                            count += 1;
+                                            received += p.len();
+                                        } else {
+                                            break;
                                         }
                                     }
                                 }
-                                let total = if recs.len() >= 2 && rng.chance(1, 3) { 2 } else { 1 };
-                                if total == 2 {
-                                    let second = recs.split_off(recs.len() / 2);
-                                    let _ = svc.inject(HandlerOut::Response(na.clone(), Box::new(Response { id: req.id.clone(), body: ResponseBody::Nodes { total: 2, nodes: recs } })));
-                                    settle().await;
-                                    let _ = svc.inject(HandlerOut::Response(na, Box::new(Response { id: req.id.clone(), body: ResponseBody::Nodes { total: 2, nodes: second } })));
-                                } else {
-                                    let _ = svc.inject(HandlerOut::Response(na, Box::new(Response { id: req.id.clone(), body: ResponseBody::Nodes { total: 1, nodes: recs } })));
+                                for j in who.iter().take(taken) {
+                                    if *j != pi {
+                                        reported.insert(*j);
+                                    }
+                                }
+                                if taken > 16 {
+                                    tags.push("lookup:one_answer_reported_more_than_16_candidates".into());
+                                }
+                                let np = packets.len();
+                                for (n, p) in packets.into_iter().enumerate() {
+                                    let _ = svc.inject(HandlerOut::Response(na.clone(), Box::new(Response { id: req.id.clone(), body: ResponseBody::Nodes { total, nodes: p } })));
+                                    if n + 1 < np {
+                                        settle().await;
+                                    }
                                 }
                                 answered.insert(pi);
                                 in_flight.remove(&req.id.0);
@@ -412,6 +534,17 @@ async fn run_case(seed: u64, idx: u64, world: &[Node], thorough: bool, script: S
         let bound = lookups.iter().filter(|l| l.started).fold(0usize, |a, l| a.saturating_add(par.max(l.k)));
         if unexpired > bound {
             fails.push(("C09".into(), if single { format!("{} requests in flight, parallelism {} and {} results requested", unexpired, par, k) } else { format!("{} requests in flight, more than the lookups in flight allow together (parallelism {})", unexpired, par) }));
+        }
+        // ... and a lookup stalls only after `parallelism` consecutive answers that brought it no closer: with fewer
+        // answers than that (failures and silence are no answers) it is not stalled, whatever number of results it wants
+        if single && answered.len() < par && unexpired > par {
+            fails.push((
+                "C09".into(),
+                format!("{} requests in flight with parallelism {} although the lookup cannot have stalled: only {} of its requests have been answered so far (failed and unanswered requests do not stall a lookup)", unexpired, par, answered.len())
+                    .chars()
+                    .map(|c| if c.is_ascii_digit() { '#' } else { c })
+                    .collect(),
+            ));
         }
         if unexpired > par {
             ever_many = true;
@@ -543,6 +676,194 @@ async fn run_case(seed: u64, idx: u64, world: &[Node], thorough: bool, script: S
     Outcome { fails, script: script.snapshot(), nontrivial: asked.len() >= 2, tags }
 }
 
+/// A lookup with no traffic but its own (C09, C10): the table holds a few ordinary entries and, mostly, one to three
+/// entries whose record has no socket this IPv4 node can use (see `odd_enr`; put there through the table handle, the
+/// routing table does not look at addresses). The harness plays a handler that keeps its contract - every request
+/// it is handed ends with an answer or a failure, here at once - and does nothing else. When the last request has
+/// been resolved and the service task has run until it is idle, nothing is in flight and nothing else will ever
+/// wake the service: the lookup must have ended. If it has not, the harness waits (real time, the clocks of the
+/// query pool are `std::time::Instant`) for more than the query timeout with no traffic at all before it reports
+/// that the lookup neither finished nor was cut off.
+async fn run_quiet_case(seed: u64, idx: u64, world: &[Node], script: Script) -> Outcome {
+    let mut rng = crate::kb::case_rng(seed ^ 0x7175_6965_7400, idx);
+    let mut fails: Vec<(String, String)> = vec![];
+    let mut tags: Vec<String> = vec!["quiet:case".into()];
+    let par = rng.range(1, 4) as usize;
+    let predicate = rng.chance(1, 4);
+    let k = if predicate { rng.range(1, 6) as usize } else { 16 };
+    let (query_timeout, peer_timeout) = (400u64, 150u64);
+    let local_key = CombinedKey::generate_secp256k1();
+    let local_enr = {
+        let mut b = Enr::builder();
+        b.ip4(Ipv4Addr::new(10, 1, 0, 1));
+        b.udp4(9000);
+        b.build(&local_key).unwrap()
+    };
+    let mut cb = ConfigBuilder::new(ListenConfig::Ipv4 { ip: Ipv4Addr::new(10, 1, 0, 1), port: 9000 });
+    cb.query_parallelism(par)
+        .query_timeout(Duration::from_millis(query_timeout))
+        .query_peer_timeout(Duration::from_millis(peer_timeout))
+        .ping_interval(Duration::from_secs(100_000))
+        .disable_report_discovered_peers();
+    let mut svc = match scripted_service(local_enr, local_key, cb.build()) {
+        Ok(s) => s,
+        Err(e) => return Outcome { fails: vec![("C09".into(), format!("cannot build the service: {}", e))], script: script.snapshot(), nontrivial: false, tags },
+    };
+    settle().await;
+    let n_good = *rng.pick(&[0usize, 0, 1, 2, 4, 8, 17]);
+    let n_odd = *rng.pick(&[0usize, 1, 1, 1, 2, 3]);
+    let mut table: Vec<usize> = vec![];
+    let mut odd: Vec<usize> = vec![];
+    while table.len() < n_good {
+        let i = rng.below(world.len() as u64) as usize;
+        if !table.contains(&i) && svc.discv5.add_enr(world[i].enr.clone()).is_ok() {
+            table.push(i);
+        }
+    }
+    while odd.len() < n_odd {
+        let j = rng.below(world.len() as u64) as usize;
+        if table.contains(&j) || odd.contains(&j) {
+            continue;
+        }
+        let enr = odd_enr(j, &world[j].sk, world[j].enr.seq(), rng.below(3));
+        let key = discv5::Key::from(enr.node_id());
+        let _ = svc.kbuckets.write().insert_or_update(&key, enr, crate::service::status(rng.chance(1, 2), rng.chance(1, 2)));
+        odd.push(j);
+    }
+    script.push(format!(
+        "quiet lookup: parallelism {}, {} ordinary table entries, {} entries whose record has no socket usable in IPv4 mode, predicate lookup: {}, query timeout {} ms, peer timeout {} ms (real time)",
+        par,
+        table.len(),
+        odd.len(),
+        predicate,
+        query_timeout,
+        peer_timeout
+    ));
+    tags.push(format!("quiet:unusable_entries_{}", odd.len()));
+    let mut target = [0u8; 32];
+    target.copy_from_slice(&rng.bytes(32));
+    let mut l = Lookup { label: "the lookup".into(), target, predicate, k, start_step: 0, started: false, done: Arc::new(Mutex::new(vec![])) };
+    start_lookup(&svc, &mut l);
+    let id_index: HashMap<K32, usize> = world.iter().enumerate().map(|(i, n)| (n.id, i)).collect();
+    let mut asked: Vec<usize> = vec![];
+    let mut answered: BTreeSet<usize> = BTreeSet::new();
+    let mut reported: BTreeSet<usize> = BTreeSet::new();
+    let answer_weight = *rng.pick(&[0u64, 1, 3, 8]);
+    let mut rounds = 0;
+    loop {
+        settle().await;
+        rounds += 1;
+        let reqs: Vec<(NodeContact, Box<Request>)> = svc.drain().into_iter().filter_map(|m| if let HandlerIn::Request(c, r) = m { Some((c, r)) } else { None }).collect();
+        if reqs.is_empty() || rounds > 400 || svc.task.is_finished() {
+            break;
+        }
+        for (contact, req) in reqs {
+            let distances = match &req.body {
+                RequestBody::FindNode { distances } => distances.clone(),
+                _ => continue,
+            };
+            let pid = contact.node_id().raw();
+            let pi = match id_index.get(&pid) {
+                Some(i) => *i,
+                None => continue,
+            };
+            if odd.contains(&pi) {
+                fails.push(("C09".into(), "a lookup request was addressed to a node whose record has no socket usable in the local IP mode".into()));
+            }
+            if asked.contains(&pi) {
+                fails.push(("C09".into(), "the lookup sent its request to the same peer twice".into()));
+            }
+            asked.push(pi);
+            let na = NodeAddress { socket_addr: contact.socket_addr(), node_id: contact.node_id() };
+            if rng.below(10) < answer_weight {
+                let mut recs: Vec<Enr> = vec![];
+                let want = rng.below(4) as usize;
+                let mut tries = 0;
+                while recs.len() < want && tries < 100 {
+                    tries += 1;
+                    let j = rng.below(world.len() as u64) as usize;
+                    if odd.contains(&j) || !distances.contains(&log2d(&world[j].id, &pid)) || recs.iter().any(|r| r.node_id().raw() == world[j].id) {
+                        continue;
+                    }
+                    recs.push(world[j].enr.clone());
+                    if j != pi {
+                        reported.insert(j);
+                    }
+                }
+                let _ = svc.inject(HandlerOut::Response(na, Box::new(Response { id: req.id.clone(), body: ResponseBody::Nodes { total: 1, nodes: recs } })));
+                answered.insert(pi);
+            } else {
+                let _ = svc.inject(HandlerOut::RequestFailed(req.id.clone(), discv5::RequestError::Timeout));
+            }
+        }
+    }
+    settle().await;
+    script.push(format!("{} peers asked, {} answered; every request has been resolved, the service task is idle", asked.len(), answered.len()));
+    let done = |l: &Lookup| !l.done.lock().unwrap().is_empty();
+    if svc.task.is_finished() {
+        let why = service_end(&mut svc).await;
+        fails.push(("C09".into(), format!("the service task {} while a lookup was in flight", why)));
+    } else if !done(&l) && rounds <= 400 {
+        // nothing in flight, nothing else going on: from here on only the passing of (real) time could end the lookup
+        tags.push("quiet:lookup_open_when_idle".into());
+        let t0 = std::time::Instant::now();
+        let limit = Duration::from_millis(query_timeout + peer_timeout + 250);
+        while !done(&l) && t0.elapsed() < limit {
+            std::thread::sleep(Duration::from_millis(25));
+            settle().await;
+        }
+        if !done(&l) {
+            let waited = t0.elapsed().as_millis();
+            script.push(format!("{} ms of real time later (query timeout {} ms) the caller still has no result", waited, query_timeout));
+            fails.push((
+                "C09".into(),
+                "a lookup neither finished nor was cut off by the query timeout: every request it had sent was resolved (answer or failure), nothing was in flight, and more than the query timeout of real time later, with no other traffic, the caller had no result".into(),
+            ));
+            // observation: does an unrelated event (which makes the service loop look at its queries again) end it?
+            let _ = svc.inject(HandlerOut::RequestFailed(RequestId(vec![0xfe, 0xfe, 0xfe]), discv5::RequestError::Timeout));
+            settle().await;
+            script.push(if done(&l) { "an unrelated event handed to the service afterwards made the lookup end".into() } else { "an unrelated event handed to the service afterwards did not end it either".to_string() });
+        } else {
+            script.push("the lookup ended while nothing but time passed".into());
+        }
+    }
+    let results = l.done.lock().unwrap().clone();
+    if results.len() > 1 {
+        fails.push(("C09".into(), "the lookup handed its result to the caller more than once".into()));
+    }
+    match results.first() {
+        Some(Err(e)) => fails.push(("C09".into(), format!("the caller of the lookup received an error instead of a result: {}", e))),
+        Some(Ok(enrs)) => {
+            script.push(format!("the lookup: {} results", enrs.len()));
+            if enrs.len() > k {
+                fails.push(("C10".into(), format!("{} results, more than the {} requested", enrs.len(), k)));
+            }
+            let ids: Vec<K32> = enrs.iter().map(|e| e.node_id().raw()).collect();
+            for w in ids.windows(2) {
+                if xor(&w[0], &target) >= xor(&w[1], &target) {
+                    fails.push(("C10".into(), "result not in strictly increasing distance to the target".into()));
+                }
+            }
+            for id in &ids {
+                match id_index.get(id) {
+                    Some(i) if answered.contains(i) => {}
+                    _ => fails.push(("C10".into(), "the result contains a node that did not answer the lookup's request".into())),
+                }
+            }
+            if enrs.len() < k && reported.iter().any(|j| !asked.contains(j)) {
+                fails.push(("C10".into(), "the lookup ended by itself with fewer results than requested although a candidate it learned of from an answer was never contacted".into()));
+            }
+            if predicate && enrs.iter().any(|e| e.tcp4().is_none()) {
+                fails.push(("C10".into(), "a predicate lookup returned a node whose record does not satisfy the predicate".into()));
+            }
+        }
+        None => {}
+    }
+    svc.task.abort();
+    fails.dedup();
+    Outcome { fails, script: script.snapshot(), nontrivial: asked.len() >= 2, tags }
+}
+
 /// real seconds a case may take before it is given up as hung (a case takes milliseconds)
 const WATCH_SECS: u64 = 30;
 
@@ -567,9 +888,21 @@ pub fn main(args: &[String]) {
         None => (0..o.cases).collect(),
     };
     let mut hung = 0;
+    // the quiet cases (`run_quiet_case`) are numbered from 1_000_000 (`--only 1000003` replays one of them)
+    const QUIET_BASE: u64 = 1_000_000;
+    let mut range = range;
+    if only.is_none() {
+        range.extend((0..(o.cases / 4).max(8)).map(|i| QUIET_BASE + i));
+    }
+    let mut quiet_open = 0;
     for idx in range {
         if hung >= crate::service::MAX_HUNG_CASES {
             break;
+        }
+        let quiet = idx >= QUIET_BASE;
+        if quiet && quiet_open >= 3 {
+            // (each such case waits for more than the query timeout in real time; the failure has been reported)
+            continue;
         }
         // every case on a thread of its own, watched: a service task that blocks (it holds the only thread
         // of the paused-clock runtime) must not stall the run - and a lookup that can never end is a C09 matter
@@ -577,7 +910,7 @@ pub fn main(args: &[String]) {
         let (seed, thorough, sc) = (o.seed, o.thorough, script.clone());
         let res = crate::service::run_watched(WATCH_SECS, move || {
             let rt = tokio::runtime::Builder::new_current_thread().enable_all().start_paused(true).build().unwrap();
-            let out = rt.block_on(run_case(seed, idx, world, thorough, sc));
+            let out = if quiet { rt.block_on(run_quiet_case(seed, idx - QUIET_BASE, world, sc)) } else { rt.block_on(run_case(seed, idx, world, thorough, sc)) };
             drop(rt);
             out
         });
@@ -595,6 +928,9 @@ pub fn main(args: &[String]) {
                 }
             }
         };
+        if out.tags.iter().any(|t| t == "quiet:lookup_open_when_idle") {
+            quiet_open += 1;
+        }
         sum.evaluations += 1;
         if out.nontrivial {
             sum.distinct_nontrivial += 1;
@@ -625,7 +961,7 @@ pub fn main(args: &[String]) {
             }
         }
     }
-    sum.rule = "real find_node / find_node_predicate lookups through the real Service event loop (paused clock) over tables of 0-40 entries; the harness plays the handler: every FINDNODE is answered with NODES (one or two packets, records at the requested distances; in a third of the cases newer versions of routing-table entries' records now and then), failed, or left silent (late answers/failures now and then); parallelism 1-4, predicate lookups with 1-6 requested results; in a third of the cases 1-3 further lookups are issued next to the first (at once or while it is in flight): plain ones and predicate lookups asking for usize::MAX, usize::MAX/2, 0, 1, 16 or 100 results - each must end with a result and the service task must survive; non-trivial = at least two peers were asked".into();
+    sum.rule = "real find_node / find_node_predicate lookups through the real Service event loop (paused clock) over tables of 0-40 entries; the harness plays the handler: every FINDNODE is answered with NODES (one or two packets, records at the requested distances; in a third of the cases newer versions of routing-table entries' records now and then), failed, or left silent (late answers/failures now and then); parallelism 1-4, predicate lookups with 1-6 requested results; in a third of the cases 1-3 further lookups are issued next to the first (at once or while it is in flight): plain ones and predicate lookups asking for usize::MAX, usize::MAX/2, 0, 1, 16 or 100 results - each must end with a result and the service task must survive; in a quarter of the cases answers of 17-26 records in 3-4 packets, in a fifth only the first 1-3 requests are answered (so) and all others fail (exhaustion with a handful of results: every reported candidate must have been asked); in a sixth the table also holds 1-2 entries whose record has no socket usable in IPv4 mode (put there through the shared table handle); after the ordinary cases cases/4 QUIET cases (numbered from 1000000): a lookup over a few ordinary and 0-3 unusable entries, every request resolved at once, no other traffic - when the service is idle with nothing in flight the lookup must have ended, else the harness waits more than the (400 ms, real time) query timeout before it reports; non-trivial = at least two peers were asked".into();
     sum.write(&o.out);
     println!("svcq: {} cases, {} non-trivial, {} monitor failure signatures", sum.evaluations, sum.distinct_nontrivial, sum.monitor_failures.len());
 }
